@@ -8,7 +8,8 @@
    for EVERY such function, so they hold for the real one.  "No 64-bit hash collision" is exactly the
    hypothesis of C01_no_collision_means_content (the only place where line content enters). *)
 From Coq Require Import List ZArith NArith.
-From PP Require Import Base.Lines Gen.Src_dedupe Probing.ProbingDefs Tools.DedupeDefs Tools.DedupeProofs.
+From PP Require Import Base.Lines Gen.Src_dedupe Probing.ProbingDefs Tools.DedupeDefs Tools.DedupeProofs
+  Tools.DedupeFull Tools.DedupeFullProofs Tools.LinesProofs Fields.FieldsDefs Fields.FieldsProofs Hash.MurmurDefs.
 Import ListNotations.
 Local Open Scope N_scope.
 
@@ -124,6 +125,42 @@ Theorem C01_tool_bytes :
 Proof. intros. unfold dedupe_tool. rewrite dedupe_first_occ. reflexivity. Qed.
 Print Assumptions C01_tool_bytes.
 
+(* ---- the complete tool, no key taken from the implementation ----
+   dedupe -f FIELDS -d DELIM: the option string is parsed by the Fields model (C10), the key of a line is
+   MurmurHash64A (C14 model) of the line or of the selected fields, the lines come from the record
+   specification, the seen-set is the C13 table.  For every accepted option string and every input the
+   output bytes are the first occurrences by that key; rejected option strings abort before reading. *)
+Theorem C01_tool_complete :
+  forall (fields : list Z) (d : Z) (input : list Z) rs,
+  nonul fields -> parse_key_spec fields = Some rs ->
+  dedupe_tool_real fields d input =
+    ToolOk (unrecords newline (first_occ (list Z) (key_fn rs d) (records newline true input))).
+Proof. exact dedupe_tool_real_spec. Qed.
+Print Assumptions C01_tool_complete.
+
+(* ... and in terms of line CONTENT: the complete tool drops a line iff an earlier line has the same
+   cut-selected fields (the whole line for the default -f 1-), for lines containing every selected field,
+   absent a 64-bit collision among the selections occurring in the input (explicit hypothesis). *)
+Theorem C01_dropped_iff_same_selected_fields :
+  forall rs d (pre : list (list Z)) (l : list Z),
+  canonical rs ->
+  (forall x, In x (l :: pre) -> contains_all (Z.of_nat (length (split_fields d x))) rs) ->
+  (forall x y, In x (l :: pre) -> In y (l :: pre) ->
+     Z.to_N (hash_fold dedupe_field_seed (spec_pieces d x rs)) = Z.to_N (hash_fold dedupe_field_seed (spec_pieces d y rs)) ->
+     spec_pieces d x rs = spec_pieces d y rs) ->
+  (mem (key_fn rs d l) (map (key_fn rs d) pre) = true <->
+   exists x, In x pre /\ select (split_fields d x) rs = select (split_fields d l) rs).
+Proof. exact dropped_iff_same_selected_fields. Qed.
+Print Assumptions C01_dropped_iff_same_selected_fields.
+
+(* "a\nb\na\n" through the whole model with real MurmurHash64A keys: the repeat is dropped;
+   with -f 2 and TAB the key is the second field only *)
+Example C01_nonvacuous_complete :
+  (dedupe_tool_real [49; 45] 9 [97; 10; 98; 10; 97; 10] = ToolOk [97; 10; 98; 10] /\
+   dedupe_tool_real [50] 9 [97; 9; 120; 10; 98; 9; 120; 10; 97; 9; 121; 10] = ToolOk [97; 9; 120; 10; 97; 9; 121; 10] /\
+   dedupe_tool_real [48] 9 [97; 10] = ToolBadOptions)%Z.
+Proof. repeat split; vm_compute; reflexivity. Qed.
+
 (* A line whose key equals the hash table's empty marker (0) is handled by the guard: kept at its
    first occurrence like any other line.  (Before the fix it was dropped at its only occurrence.) *)
 Example C01_reserved_key_line_kept :
@@ -165,16 +202,30 @@ Proof.
 Qed.
 Print Assumptions C01_tool_idempotent_refuted.
 
-(* what does hold on bytes: idempotence for outputs that are read back as the same lines
-   (i.e. no output line ends in CR -- CR stripping is then the identity on them).
+(* what does hold on bytes: idempotence whenever CR stripping is the identity on the lines dedupe wrote
+   (none of them ends in CR) -- then the output is read back as exactly the lines that were written.
    MISSING for the unconditional byte-level statement: nothing; it is false (theorem above). *)
 Theorem C01_tool_idempotent_partial :
   forall (key : list Z -> N) (input out : list Z),
   dedupe_tool key input = Ok out ->
-  records newline true out = first_occ (list Z) key (records newline true input) ->
+  (forall l, In l (first_occ (list Z) key (records newline true input)) -> strip_cr l = l) ->
   dedupe_tool key out = Ok out.
 Proof.
-  intros key input out H Hrec. rewrite C01_tool_bytes in H. injection H as <-.
-  rewrite C01_tool_bytes. rewrite Hrec. f_equal. f_equal. apply first_occ_from_idem.
+  intros key input out H Hcr. rewrite C01_tool_bytes in H. injection H as <-.
+  rewrite C01_tool_bytes.
+  assert (Hnd : forallb (no_delim newline) (first_occ (list Z) key (records newline true input)) = true).
+  { apply forallb_forall. intros l Hl.
+    pose proof (records_nodelim newline true input) as Hall. rewrite forallb_forall in Hall. apply Hall.
+    eapply Subseq_In; [apply first_occ_from_subseq|exact Hl]. }
+  rewrite (records_unrecords_cr newline _ Hnd Hcr). f_equal. f_equal. apply first_occ_from_idem.
 Qed.
 Print Assumptions C01_tool_idempotent_partial.
+
+(* non-vacuity of its hypotheses: ordinary text lines *)
+Example C01_nonvacuous_idempotent_bytes :
+  (forall l, In l (first_occ (list Z) wkey (records newline true [97; 10; 98; 13; 10; 97; 10]%Z)) -> strip_cr l = l) /\
+  dedupe_tool wkey [97; 10; 98; 13; 10; 97; 10]%Z = Ok [97; 10; 98; 10]%Z.
+Proof.
+  split; [|vm_compute; reflexivity].
+  intros l H. vm_compute in H. destruct H as [<-|[<-|[]]]; reflexivity.
+Qed.
